@@ -915,7 +915,7 @@ class Exec:
     def arith(s, op, a, b):
         if isinstance(a, bool): a = int(a)
         if isinstance(b, bool): b = int(b)
-        if op == '+' and (isinstance(a, str) or isinstance(b, str)):
+        if op == '+' and (isinstance(a, str) or isinstance(b, str)) and isinstance(a, (str, int)) and isinstance(b, (str, int)):
             return str(a) + str(b)
         if isinstance(a, int) and isinstance(b, int):
             if op == '+': return a + b
